@@ -50,6 +50,8 @@ def header_c(lang, f, indent):
         return f"{indent}function {f.name}({p})", len(indent) + 1, "function"
     params = ", ".join("int " + x if x.isidentifier() else x for x in f.params.split(", ")) if f.params else ""
     head = f"{indent}{ret} {f.name}({params})"
+    if f.style.get("throws"):
+        head += " throws " + f.style["throws"]
     return head, len(indent) + len(ret) + 2, "name"
 
 
@@ -100,6 +102,12 @@ def emit_brace(w, f, depth, rnd, parent_counts):
         if f.style.get("blocks") and k % 5 == 3 and k + 2 < f.body and not any(j in f.children_at for j in (k + 1, k + 2)):
             pass
         own.add(w.add(inner + STMTS_C[k % len(STMTS_C)] + ("  // t" if f.style.get("comments") and k % 4 == 0 else "")))
+    if f.style.get("template"):
+        # a template literal whose text starts right after the backtick at the end of the line; the literal's text is one
+        # token beginning on the first line, the closing backtick and ';' begin on the last line
+        own.add(w.add(inner + "t = `"))
+        w.add("  line one")
+        own.add(w.add("  line two`;"))
     if f.body in f.children_at:
         emit_brace(w, f.children_at[f.body], depth + 1, rnd, own)
     end_line = w.add(indent + "}" + (";" if f.kind == "arrow" else ""))
@@ -140,6 +148,15 @@ def emit_py(w, f, depth, rnd):
         last_line = w.add(text + ("  # t" if f.style.get("comments") and k % 4 == 0 else ""))
         last_len = len(text)
         own.add(last_line)
+    if f.style.get("tail"):
+        doc = f.style["tail"]
+        parts = doc.split("\n")
+        first = w.add(inner + parts[0])
+        own.add(first)
+        for extra in parts[1:]:
+            w.add(extra)
+        last_line = first + len(parts) - 1
+        last_len = len(parts[-1]) if len(parts) > 1 else len(inner + parts[0])
     tail_child = f.children_at.get(f.body)
     if tail_child is not None:
         emit_py(w, tail_child, depth + 1, rnd)
@@ -250,6 +267,23 @@ def programs(lang, tier="quick", seed=0):
     if lang in ("C", "C++"):
         w = render(lang, [Func(fresh(), 2, params="int (*cb)(int)")], rnd)
         w.tags.add("parens-in-params")
+        yield w
+    if lang == "Java":
+        for n_exc in (1, 3, 7, 12):
+            f = Func(fresh(), 3, style={"throws": ", ".join(f"java.io.E{i}Exception" if i % 2 else f"E{i}" for i in range(n_exc))})
+            w = render(lang, [Func(fresh(), 2), f], rnd)
+            w.tags.add("throws-clause")
+            yield w
+    if lang == "Python":
+        for doc in ('"""one line"""', '"""first\n    second\n    third line"""'):
+            f = Func(fresh(), 2, style={"tail": doc})
+            w = render(lang, [f, Func(fresh(), 1)], rnd)
+            w.tags.add("multiline-last-token" if "\n" in doc else "docstring-last")
+            yield w
+    if lang in ("JavaScript", "TypeScript"):
+        f = Func(fresh(), 2, style={"template": True})
+        w = render(lang, [f], rnd)
+        w.tags.add("multiline-template-literal")
         yield w
     if tier == "thorough":
         for _ in range(150):
